@@ -100,7 +100,13 @@ def _rand_cards(rng, nodes):
 
 def _case(rng, nodes, edges, cards, style, mode, level):
     spec = make_spec(rng, nodes, edges, cards, style, mode)
-    return {"spec": O.spec_to_json(spec), "qseed": rng.randrange(10 ** 9), "level": level, "style": style, "mode": mode}
+    qseed = rng.randrange(10 ** 9)
+    # every third model declares one (interior, if any) node latent: latent flags must not change any posterior
+    latents = []
+    if qseed % 3 == 0 and len(nodes) >= 2:
+        inner = [v for v in nodes if any(e[0] == v for e in edges)] or list(nodes)
+        latents = [inner[qseed % len(inner)]]
+    return {"spec": O.spec_to_json(spec), "qseed": qseed, "level": level, "style": style, "mode": mode, "latents": latents}
 
 
 def gen_models(tier, seed, salt="c01", n_random=None, full_sizes=None):
@@ -271,7 +277,7 @@ def check_query(case):
     level = case["level"]
     J = Joint(spec)
     nodes = list(spec["nodes"])
-    model = O.make_bn(spec)
+    model = O.make_bn(spec, latents=case.get("latents", []))
     pairs = qe_pairs(nodes, level, rng)
     # oracle self-check: the fast table agrees with the shared reference oracle
     Q0, E0 = pairs[len(pairs) // 2]
@@ -306,7 +312,7 @@ def check_virtual(case):
     level = case["level"]
     J = Joint(spec)
     nodes = list(spec["nodes"])
-    model = O.make_bn(spec)
+    model = O.make_bn(spec, latents=case.get("latents", []))
     pairs = qe_pairs(nodes, level, rng, max_pairs=24)
     k = 0
     for vlist in virtual_lists(spec, rng, level):
@@ -343,7 +349,7 @@ def check_bn_api(case):
     level = case["level"]
     J = Joint(spec)
     nodes = list(spec["nodes"])
-    model = O.make_bn(spec)
+    model = O.make_bn(spec, latents=case.get("latents", []))
     subsets = [list(c) for r in range(0, len(nodes) + 1) for c in itertools.combinations(nodes, r)]
     if level != "full":
         subsets = [s for s in subsets if len(s) <= 2 or len(s) == len(nodes)]
